@@ -5,6 +5,7 @@
 //! corresponding *_Trace.tla specification validates with TLC.
 mod bloom;
 mod free;
+mod histogram;
 mod keyhash;
 mod cache;
 mod scenario;
@@ -41,6 +42,7 @@ fn main() {
         "sketch" => sketch::run(&o),
         "bloom" => bloom::run(&o),
         "free" => free::run(&o),
+        "histogram" => histogram::run(&o),
         "keyhash" => keyhash::run(&o),
         "cache" => cache::run(&o),
         "scenario" => scenario::run(&o),
